@@ -653,7 +653,7 @@ func checkExpectation(meta *sx.Sexp, out []byte, xerr error) string {
 		// errors reported by a called function - the registry's fail() and jet's own built-ins, which use
 		// Arguments.Panicf - need not carry a position; everything jet's evaluator detects itself must
 		selfDetected := true
-		for _, fn := range []string{"{{ fail(", "{{ map(", "{{ ints(", "{{ len("} {
+		for _, fn := range []string{"{{ fail(", "{{ map(", "{{ ints(", "{{ len(", "{{ includeIfExists(", "{{if includeIfExists(", "{{ exec("} {
 			if strings.HasPrefix(act, fn) {
 				selfDetected = false
 			}
